@@ -205,6 +205,19 @@ CLAIMED["C12"] = dict(
     technique="guard / provenance rules and decision tables over MIR path tables",
 )
 
+CLAIMED["C08"] = dict(
+    category="other",
+    text=("Structural clauses: R8.1 is_ccw is strict and Graham's stack pops on Clockwise and on Collinear unless include_on_hull (tables); R8.2 "
+          "no value carrying a rounded-arithmetic label is pushed as a hull vertex (taint: vertices are copies of inputs); R8.3 convex_hull() "
+          "is Polygon::new(quick_hull(exterior coords)) on its only path and every hull routine closes the ring before every return; R8.4 the "
+          "farthest-point selection of quick hull breaks ties with a total order; R8.5 Graham's comparator table against exact reference "
+          "(counter-clockwise around the pivot, nearer first among collinear) on integer witnesses. Exactness of the side tests is C03. "
+          "Not decided: minimality/containment as such, minimum_rotated_rect."),
+    design_ref="DESIGN.md §4 C08",
+    note="Trusted: orient2d exactness (C03). Minimality of the hull is not claimed.",
+    technique="decision tables + taint provenance + path-shape rules over MIR",
+)
+
 NOT_YET = "rule set not implemented in this revision of /verif (see DESIGN.md §7 build order); nothing is claimed"
 NA = {}
 
